@@ -14,7 +14,6 @@ import (
 	"crypto/rand"
 	"crypto/sha256"
 	"encoding/base64"
-	"errors"
 	"strconv"
 	"strings"
 	"testing"
@@ -25,26 +24,14 @@ import (
 	"github.com/openbao/openbao/sdk/v2/zzverif/vh"
 )
 
-type faultStorage struct {
-	logical.Storage
-	count, failAt int
-}
-
-func (s *faultStorage) Put(ctx context.Context, e *logical.StorageEntry) error {
-	s.count++
-	if s.failAt > 0 && s.count == s.failAt {
-		return errors.New(c17core.InjectedPutError)
-	}
-	return s.Storage.Put(ctx, e)
-}
-
 type aadFactory struct{ b []byte }
 
 func (f aadFactory) GetAssociatedData() ([]byte, error) { return f.b, nil }
 
 type target struct {
 	lm   *keysutil.LockManager
-	st   *faultStorage
+	st   logical.Storage // transactional
+	fs   *c17core.FaultStore
 	ctx  context.Context
 	name string
 }
@@ -54,7 +41,8 @@ func newTarget(useCache bool) c17core.Target {
 	if err != nil {
 		panic(err)
 	}
-	return &target{lm: lm, st: &faultStorage{Storage: &logical.InmemStorage{}}, ctx: context.Background(), name: "k"}
+	st, fs := c17core.NewFaultStorage()
+	return &target{lm: lm, st: st, fs: fs, ctx: context.Background(), name: "k"}
 }
 
 func (t *target) Close() {}
@@ -68,8 +56,10 @@ func cls(err error) string {
 	return c17core.Classify(err.Error())
 }
 
-func (t *target) get(excl bool) (*keysutil.Policy, string) {
-	p, _, err := t.lm.GetPolicyWithLockType(t.ctx, keysutil.PolicyRequest{Storage: t.st, Name: t.name}, rand.Reader, excl)
+func (t *target) get(excl bool) (*keysutil.Policy, string) { return t.getFrom(t.st, excl) }
+
+func (t *target) getFrom(st logical.Storage, excl bool) (*keysutil.Policy, string) {
+	p, _, err := t.lm.GetPolicyWithLockType(t.ctx, keysutil.PolicyRequest{Storage: st, Name: t.name}, rand.Reader, excl)
 	if err != nil {
 		return nil, cls(err)
 	}
@@ -81,9 +71,9 @@ func (t *target) get(excl bool) (*keysutil.Policy, string) {
 
 // mutating wraps a mutating operation: the planned put fault applies to it and is cleared afterwards.
 func (t *target) mutating(f func() string) (res string) {
-	t.st.count = 0
+	t.fs.Count = 0
 	defer func() {
-		t.st.failAt = 0
+		t.fs.FailAt = 0
 		if r := recover(); r != nil {
 			res = "PANIC"
 		}
@@ -91,7 +81,30 @@ func (t *target) mutating(f func() string) (res string) {
 	return f()
 }
 
-func (t *target) FailPut(k int) { t.st.failAt = k }
+func (t *target) FailPut(k int) { t.fs.FailAt = k }
+
+// inTx runs f the way the rotate / config / trim handlers run: inside logical.StartTxStorage, i.e. on a
+// transaction of the storage that is committed on success and rolled back when the request fails.
+func (t *target) inTx(f func(st logical.Storage) string) string {
+	return t.mutating(func() (res string) {
+		tx, err := t.st.(logical.TransactionalStorage).BeginTx(t.ctx)
+		if err != nil {
+			return cls(err)
+		}
+		defer func() {
+			if r := recover(); r != nil {
+				tx.Rollback(t.ctx) //nolint:errcheck
+				panic(r)
+			}
+		}()
+		res = f(tx)
+		if res != "" {
+			tx.Rollback(t.ctx) //nolint:errcheck
+			return res
+		}
+		return cls(tx.Commit(t.ctx))
+	})
+}
 
 func (t *target) Info() (c17core.Info, bool) {
 	p, c := t.get(false)
@@ -130,20 +143,20 @@ func (t *target) New(typ string, derived, convergent bool) string {
 }
 
 func (t *target) Rotate() string {
-	return t.mutating(func() string {
-		p, c := t.get(true)
+	return t.inTx(func(st logical.Storage) string {
+		p, c := t.getFrom(st, true)
 		if c != "" {
 			return c
 		}
 		defer p.Unlock()
-		return cls(p.Rotate(t.ctx, t.st, rand.Reader))
+		return cls(p.Rotate(t.ctx, st, rand.Reader))
 	})
 }
 
 // Config replays pathKeysConfigWrite's use of the policy (min versions and the three flags).
 func (t *target) Config(dec, enc *int, del, exp, apb *bool) string {
-	return t.mutating(func() (res string) {
-		p, c := t.get(true)
+	return t.inTx(func(st logical.Storage) (res string) {
+		p, c := t.getFrom(st, true)
 		if c != "" {
 			return c
 		}
@@ -212,21 +225,21 @@ func (t *target) Config(dec, enc *int, del, exp, apb *bool) string {
 		case p.MinAvailableVersion > p.MinDecryptionVersion:
 			return "availAboveDec"
 		}
-		return cls(p.Persist(t.ctx, t.st))
+		return cls(p.Persist(t.ctx, st))
 	})
 }
 
 // RawConfig assigns the minimum versions without the endpoint guards and persists, restoring them on failure.
 func (t *target) RawConfig(dec, enc int) (string, bool) {
-	return t.mutating(func() string {
-		p, c := t.get(true)
+	return t.inTx(func(st logical.Storage) string {
+		p, c := t.getFrom(st, true)
 		if c != "" {
 			return c
 		}
 		defer p.Unlock()
 		oD, oE := p.MinDecryptionVersion, p.MinEncryptionVersion
 		p.MinDecryptionVersion, p.MinEncryptionVersion = dec, enc
-		if err := p.Persist(t.ctx, t.st); err != nil {
+		if err := p.Persist(t.ctx, st); err != nil {
 			p.MinDecryptionVersion, p.MinEncryptionVersion = oD, oE
 			return cls(err)
 		}
@@ -236,8 +249,8 @@ func (t *target) RawConfig(dec, enc int) (string, bool) {
 
 // Trim replays pathTrimUpdate's use of the policy.
 func (t *target) Trim(n int) string {
-	return t.mutating(func() string {
-		p, c := t.get(true)
+	return t.inTx(func(st logical.Storage) string {
+		p, c := t.getFrom(st, true)
 		if c != "" {
 			return c
 		}
@@ -260,7 +273,7 @@ func (t *target) Trim(n int) string {
 			return "trimZero"
 		}
 		p.MinAvailableVersion = n
-		if err := p.Persist(t.ctx, t.st); err != nil {
+		if err := p.Persist(t.ctx, st); err != nil {
 			p.MinAvailableVersion = orig
 			return cls(err)
 		}
